@@ -391,6 +391,10 @@ class fortran_cleaner:
         elif self.state[-1] == "VERIFY_CONTINUE":
             self.verify_continue = []
             self.state[-1] = "CONTINUING_FROM_SOL"
+        elif self.state[-1] in ["SINGLE_QUOTATION", "DOUBLE_QUOTATION"]:
+            # Without a continuation a character literal ends with the line
+            # (an apostrophe in free text that the preprocessor skips).
+            self.state = ["TOPLEVEL"]
 
 
 class line_info:
